@@ -141,10 +141,14 @@ def model_check(scr, module, cfg, workers=16, timeout=1800, coverage=False):
     return dict(module=module, cfg=cfg, transitions=gen, states=dist, wall_s=round(time.time() - t0, 1))
 
 
-def generate(scr, module, cfg, outname, workers=8, timeout=1800):
+def generate(scr, module, cfg, outname, workers=8, timeout=1800, seed=1, extra=()):
     """(A): TLC emits states / cases as <<"TAG", "json">> lines into a scratch file."""
     path = os.path.join(scr.dir, outname)
-    rc, _ = tlc(scr, module, cfg, workers=workers, timeout=timeout, stdout_path=path)
+    extra = list(extra)
+    if "-simulate" in extra:
+        workers = 1
+        extra += ["-seed", str(seed)]
+    rc, _ = tlc(scr, module, cfg, workers=workers, timeout=timeout, stdout_path=path, extra=extra)
     tail = subprocess.run(["tail", "-n", "30", path], capture_output=True, text=True).stdout
     if "No error has been found" not in tail and "Finished in" not in tail:
         raise Infra("generation %s/%s failed (rc=%d):\n%s" % (module, cfg, rc, strip_noise(tail)[-3000:]))
@@ -343,6 +347,11 @@ def main():
         return props.run(pid, tier, seed)
     except Infra as e:
         log("INFRA: %s" % e)
+        return 2
+    except Exception as e:  # any crash of the machinery is infrastructure trouble, never a verdict
+        import traceback
+        traceback.print_exc()
+        log("INFRA: unexpected exception: %r" % e)
         return 2
 
 
